@@ -146,6 +146,15 @@ pub fn apply_sumop(s: &mut msi::SummaryInfo, op: &SumOp) {
     }
 }
 
+/// `a AND b` at the top of a condition is given to the library as `.with(a).with(b)` for every
+/// second shape (decided by the text, so it is reproducible): both spellings mean the same.
+pub fn split_and(cond: &Option<MExpr>) -> Option<(&MExpr, &MExpr)> {
+    match cond {
+        Some(MExpr::And(a, b)) if exprmodel::show(a).len() % 2 == 0 => Some((a, b)),
+        _ => None,
+    }
+}
+
 /// Executes one operation on the real package.
 pub fn exec_op<F: Read + Write + Seek>(pkg: &mut msi::Package<F>, op: &Op) -> io::Result<()> {
     match op {
@@ -161,15 +170,25 @@ pub fn exec_op<F: Read + Write + Seek>(pkg: &mut msi::Package<F>, op: &Op) -> io
             for (c, v) in sets {
                 q = q.set(c.clone(), v.to_msi());
             }
-            if let Some(e) = cond {
-                q = q.with(exprmodel::lower(e));
+            match split_and(cond) {
+                Some((a, b)) => q = q.with(exprmodel::lower(a)).with(exprmodel::lower(b)),
+                None => {
+                    if let Some(e) = cond {
+                        q = q.with(exprmodel::lower(e));
+                    }
+                }
             }
             pkg.update_rows(q)
         }
         Op::Delete { table, cond } => {
             let mut q = msi::Delete::from(table.clone());
-            if let Some(e) = cond {
-                q = q.with(exprmodel::lower(e));
+            match split_and(cond) {
+                Some((a, b)) => q = q.with(exprmodel::lower(a)).with(exprmodel::lower(b)),
+                None => {
+                    if let Some(e) = cond {
+                        q = q.with(exprmodel::lower(e));
+                    }
+                }
             }
             pkg.delete_rows(q)
         }
